@@ -190,6 +190,11 @@ def run_shard(params, rec):
             key = pre
         else:
             key = "%s: %s differs (not reproduced in lock-step)" % (spec.family, d[0])
+        if key.startswith("state after a faulting instruction differs (memory)"):
+            idx = next((k for k, ins in enumerate(prog.instrs) if ins[0] == gcc.pc), None)
+            if idx is not None and jitlib.count_stores(spec, prog, idx) > 1:
+                # the known partial-effect mechanism of C49, seen from both back ends at once
+                key = "multi-store instruction faulting part-way: the back ends leave different partial memory effects"
         rec.fail(key, "%s: python vs gcc: %s %s" % (spec.mname, d[0], d[1]), wit)
 
 
